@@ -9,8 +9,9 @@
 set -u
 DIR="$(cd "$(dirname "$0")/.." && pwd)"
 MODE="${1:-fixes}"; shift || true
-WT=/tmp/sens/repo; SCRATCH=/tmp/sens/scratch
-mkdir -p /tmp/sens
+SENS_DIR="${SENS_DIR:-/tmp/sens}"   # a second instance (e.g. process_seeded.sh while a full pass runs) uses another directory
+WT=$SENS_DIR/repo; SCRATCH=$SENS_DIR/scratch
+mkdir -p $SENS_DIR
 if [ ! -d "$WT" ]; then git -C /repo worktree add -q --detach "$WT" HEAD || exit 2; fi
 cp /repo/Cargo.lock "$WT/" 2>/dev/null
 OUT="$DIR/seeded/SENSITIVITY.md"; mkdir -p "$DIR/seeded"
@@ -19,8 +20,8 @@ echo "| change | property | exit | first violation |" >> "$OUT"; echo "|---|---|
 run_props() { # name props...
   local name="$1"; shift
   for p in "$@"; do
-    "$DIR/scripts/with_repo.sh" "$WT" "$SCRATCH" "$p" quick > "/tmp/sens/$name-$p.out" 2>&1; local rc=$?
-    local v; v=$(grep -m1 -A1 '^VIOLATION' "/tmp/sens/$name-$p.out" | tail -1 | cut -c1-160 | iconv -f utf-8 -t utf-8 -c | tr '|' '/')
+    "$DIR/scripts/with_repo.sh" "$WT" "$SCRATCH" "$p" quick > "$SENS_DIR/$name-$p.out" 2>&1; local rc=$?
+    local v; v=$(grep -m1 -A1 '^VIOLATION' "$SENS_DIR/$name-$p.out" | tail -1 | cut -c1-160 | iconv -f utf-8 -t utf-8 -c | tr '|' '/')
     echo "| $name | $p | $rc | $v |" >> "$OUT"
     echo "$name $p exit=$rc $v"
     # SENS_FIRST_ONLY=1: one detecting check per change is enough (saves hours on a full pass)
@@ -28,7 +29,7 @@ run_props() { # name props...
   done
 }
 if [ "$MODE" = "fixes" ]; then
-  python3 - "$DIR/known_findings.json" "$@" > /tmp/sens/fixlist.txt <<'PY'
+  python3 - "$DIR/known_findings.json" "$@" > $SENS_DIR/fixlist.txt <<'PY'
 import json,sys
 f=json.load(open(sys.argv[1])); only=set(sys.argv[2:])
 for e in f['findings']:
@@ -37,19 +38,19 @@ for e in f['findings']:
 PY
   while read -r c props; do
     git -C "$WT" reset -q --hard "$(git -C /repo rev-parse HEAD)"; git -C "$WT" clean -qfd -e Cargo.lock -e target
-    if ! git -C "$WT" revert --no-commit "$c" >/tmp/sens/revert.log 2>&1; then echo "| revert-$c | - | conflict | $(head -1 /tmp/sens/revert.log) |" >> "$OUT"; git -C "$WT" revert --abort 2>/dev/null; git -C "$WT" reset -q --hard; continue; fi
+    if ! git -C "$WT" revert --no-commit "$c" >$SENS_DIR/revert.log 2>&1; then echo "| revert-$c | - | conflict | $(head -1 $SENS_DIR/revert.log) |" >> "$OUT"; git -C "$WT" revert --abort 2>/dev/null; git -C "$WT" reset -q --hard; continue; fi
     run_props "revert-$c" $props
     git -C "$WT" reset -q --hard
-  done < /tmp/sens/fixlist.txt
+  done < $SENS_DIR/fixlist.txt
 else
   for d in "$DIR"/seeded/*/; do
     n=$(basename "$d"); [ -f "$d/patch.diff" ] || continue
     if [ $# -gt 0 ]; then case " $* " in *" $n "*) ;; *) continue;; esac; fi
     git -C "$WT" reset -q --hard "$(git -C /repo rev-parse HEAD)"; git -C "$WT" clean -qfd -e Cargo.lock -e target
-    if ! git -C "$WT" apply "$d/patch.diff" 2>/tmp/sens/apply.log; then
+    if ! git -C "$WT" apply "$d/patch.diff" 2>$SENS_DIR/apply.log; then
       # the code the change was written against has been repaired since: use the port of the same slip to the current code
-      if [ -f "$d/patch_ported.diff" ] && git -C "$WT" apply "$d/patch_ported.diff" 2>>/tmp/sens/apply.log; then n="$n(ported)";
-      else echo "| $n | - | patch-does-not-apply | $(head -1 /tmp/sens/apply.log) |" >> "$OUT"; continue; fi
+      if [ -f "$d/patch_ported.diff" ] && git -C "$WT" apply "$d/patch_ported.diff" 2>>$SENS_DIR/apply.log; then n="$n(ported)";
+      else echo "| $n | - | patch-does-not-apply | $(head -1 $SENS_DIR/apply.log) |" >> "$OUT"; continue; fi
     fi
     props=$(python3 -c "import json,sys; m=json.load(open('${d}meta.json')); print(' '.join(m.get('run_checks') or [m['property']]))")
     run_props "$n" $props
